@@ -113,6 +113,10 @@ def check_wrappers(prog: Program, rep: Report, rule: str, only_semiring_used: bo
             ins = list(_D.NUM_CLASSES)
         elif kind == 'scalar':
             configs = [{others[0]: AV([c], 'scalar')} for c in float_in()] if others else [{}]
+            if prim in ('lt', 'le', 'gt', 'ge', 'eq'):
+                # comparisons are crisp on NaN (always False): include it on both sides
+                ins = ins + ['NAN']
+                configs = configs + ([{others[0]: AV(['NAN'], 'scalar')}] if others else [])
         elif kind == 'unary-opaque':
             configs = [{others[0]: Opaque('dtype')}] if others else [{}]
         bad: List[str] = []
@@ -238,7 +242,7 @@ def check_binary(prog: Program, rep: Report, rule: str) -> None:
                 rep.error(f"{rule}: {m.loc(call)} default argument of binary(): {u}"); continue
             rep.ob(rule, m.fq(), f"{m.name}: result default `{norm(dflt)[:60]}` == torch.{prim}(t.default, u.default)", m.loc(call), not badd,
                    '; '.join(badd[:3]) if badd else f"{len(float_in()) ** 2} class pairs agree")
-    rep.floor(rule.split(' ')[0] + ' binary calls', nb, 4)
+    rep.floor(rule.split(' ')[0] + ' binary calls', nb, 3)
     # sub / div: constants the pattern shortcuts compare defaults with are the right identities; result default == op on defaults
     for name, prim, rid in (('sub', 'sub', 0), ('div', 'div', 1)):
         m = pt.methods.get(name)
